@@ -1,9 +1,207 @@
-//! c08 -- placeholder; implemented by the owning property module.
-use serde_json::{json, Value};
+//! c08 -- register-file adapter: batched op sequences over the crate's public register API.
+//!
+//! Every sequence starts from a fresh `LlamaState` ("st": `LlamaState::set_reg/get_reg` by `RegName`) and,
+//! in parallel, from a fresh state inside a `CoreRuntime` ("rt": the by-name facade
+//! `CoreRuntime::set_reg/get_reg/set_flag/get_flag`; TEMPn are not reachable by name there, so they go
+//! through `rt.state` directly).  The adapter has no register semantics of its own: it maps names to
+//! `RegName`, calls the crate, and reports what it reads.
+//!
+//! ops:  ["set", NAME, v]  ["setflag", "C"|"Z", v]  ["get", NAME]  ["getflag", "C"|"Z"]  ["all"]
+//!       ["rt"]   collect_registers -> apply_registers on a fresh state (which replaces the current one)
+//!       ["rtb"]  collect_registers -> pack_registers -> unpack_registers (+ TEMPn carried beside the blob,
+//!                as CoreRuntime::save/load_snapshot do through metadata.temps) -> apply_registers (fresh)
+//!       ["collect"]  the collect_registers map itself
+use crate::util::err;
+use sc62015_core::llama::opcodes::RegName;
+use sc62015_core::llama::state::LlamaState;
+use sc62015_core::snapshot::{pack_registers, unpack_registers};
+use sc62015_core::{apply_registers, collect_registers, CoreRuntime};
+use serde_json::{json, Map, Value};
+use std::collections::HashMap;
+
+pub const NAMES: [&str; 28] = [
+    "A", "B", "BA", "IL", "IH", "I", "X", "Y", "U", "S", "PC", "F", "FC", "FZ", "TEMP0", "TEMP1",
+    "TEMP2", "TEMP3", "TEMP4", "TEMP5", "TEMP6", "TEMP7", "TEMP8", "TEMP9", "TEMP10", "TEMP11",
+    "TEMP12", "TEMP13",
+];
 
 #[derive(Default)]
-pub struct State {}
+pub struct State {
+    rt: Option<CoreRuntime>,
+}
 
-pub fn handle(verb: &str, _req: &Value, _st: &mut State) -> Value {
-    json!({"ok": false, "error": format!("c08.{verb} not implemented")})
+fn reg_of(name: &str) -> Option<RegName> {
+    Some(match name {
+        "A" => RegName::A,
+        "B" => RegName::B,
+        "BA" => RegName::BA,
+        "IL" => RegName::IL,
+        "IH" => RegName::IH,
+        "I" => RegName::I,
+        "X" => RegName::X,
+        "Y" => RegName::Y,
+        "U" => RegName::U,
+        "S" => RegName::S,
+        "PC" => RegName::PC,
+        "F" => RegName::F,
+        "FC" => RegName::FC,
+        "FZ" => RegName::FZ,
+        _ => {
+            let idx = name.strip_prefix("TEMP")?.parse::<u8>().ok()?;
+            if idx >= 14 {
+                return None;
+            }
+            RegName::Temp(idx)
+        }
+    })
+}
+
+fn flag_reg_name(flag: &str) -> Option<&'static str> {
+    match flag {
+        "C" => Some("FC"),
+        "Z" => Some("FZ"),
+        _ => None,
+    }
+}
+
+fn rt_get(rt: &CoreRuntime, name: &str) -> u32 {
+    if name.starts_with("TEMP") {
+        reg_of(name).map(|r| rt.state.get_reg(r)).unwrap_or(0)
+    } else {
+        rt.get_reg(name)
+    }
+}
+
+fn rt_set(rt: &mut CoreRuntime, name: &str, v: u32) {
+    if name.starts_with("TEMP") {
+        if let Some(r) = reg_of(name) {
+            rt.state.set_reg(r, v);
+        }
+    } else {
+        rt.set_reg(name, v);
+    }
+}
+
+fn read_all(st: &LlamaState, rt: &CoreRuntime) -> Value {
+    let a: Vec<u32> = NAMES
+        .iter()
+        .map(|n| st.get_reg(reg_of(n).unwrap()))
+        .collect();
+    let b: Vec<u32> = NAMES.iter().map(|n| rt_get(rt, n)).collect();
+    json!({"st": a, "rt": b})
+}
+
+fn map_to_json(m: &HashMap<String, u32>) -> Value {
+    let mut keys: Vec<&String> = m.keys().collect();
+    keys.sort();
+    let mut out = Map::new();
+    for k in keys {
+        out.insert(k.clone(), json!(m[k]));
+    }
+    Value::Object(out)
+}
+
+/// collect -> (optionally pack/unpack) -> apply on a fresh state; returns (fresh state, blob as hex).
+fn roundtrip(state: &LlamaState, blob: bool) -> Result<(LlamaState, String), String> {
+    let regs = collect_registers(state);
+    let mut fresh = LlamaState::new();
+    if blob {
+        let payload = pack_registers(&regs);
+        let hex: String = payload.iter().map(|b| format!("{b:02x}")).collect();
+        let mut un = unpack_registers(&payload).map_err(|e| format!("unpack_registers: {e}"))?;
+        for (k, v) in regs.iter() {
+            if k.starts_with("TEMP") {
+                un.insert(k.clone(), *v);
+            }
+        }
+        apply_registers(&mut fresh, &un);
+        Ok((fresh, hex))
+    } else {
+        apply_registers(&mut fresh, &regs);
+        Ok((fresh, String::new()))
+    }
+}
+
+fn run_seq(ops: &[Value], rt: &mut CoreRuntime) -> Result<Vec<Value>, String> {
+    let mut st = LlamaState::new();
+    rt.state = LlamaState::new();
+    let mut out = Vec::with_capacity(ops.len());
+    for op in ops {
+        let arr = op.as_array().ok_or("op is not an array")?;
+        let verb = arr.first().and_then(|v| v.as_str()).ok_or("op verb")?;
+        match verb {
+            "set" => {
+                let name = arr.get(1).and_then(|v| v.as_str()).ok_or("set name")?;
+                let v = arr.get(2).and_then(|v| v.as_u64()).ok_or("set value")? as u32;
+                let reg = reg_of(name).ok_or_else(|| format!("unknown register {name}"))?;
+                st.set_reg(reg, v);
+                rt_set(rt, name, v);
+                out.push(Value::Null);
+            }
+            "setflag" => {
+                let flag = arr.get(1).and_then(|v| v.as_str()).ok_or("flag name")?;
+                let v = arr.get(2).and_then(|v| v.as_u64()).ok_or("flag value")? as u32;
+                let name = flag_reg_name(flag).ok_or_else(|| format!("unknown flag {flag}"))?;
+                st.set_reg(reg_of(name).unwrap(), v);
+                // CoreRuntime::set_flag takes a u8; bit 0 (all a 1-bit flag can hold) survives the cast.
+                rt.set_flag(name, (v & 0xFF) as u8);
+                out.push(Value::Null);
+            }
+            "get" => {
+                let name = arr.get(1).and_then(|v| v.as_str()).ok_or("get name")?;
+                let reg = reg_of(name).ok_or_else(|| format!("unknown register {name}"))?;
+                out.push(json!([st.get_reg(reg), rt_get(rt, name)]));
+            }
+            "getflag" => {
+                let flag = arr.get(1).and_then(|v| v.as_str()).ok_or("flag name")?;
+                let name = flag_reg_name(flag).ok_or_else(|| format!("unknown flag {flag}"))?;
+                out.push(json!([st.get_reg(reg_of(name).unwrap()), rt.get_flag(name) as u32]));
+            }
+            "all" => out.push(read_all(&st, rt)),
+            "rt" | "rtb" => {
+                let before = read_all(&st, rt);
+                let (fresh_st, blob) = roundtrip(&st, verb == "rtb")?;
+                let (fresh_rt, _) = roundtrip(&rt.state, verb == "rtb")?;
+                st = fresh_st;
+                rt.state = fresh_rt;
+                let after = read_all(&st, rt);
+                out.push(json!({"before": before, "after": after, "blob": blob}));
+            }
+            "collect" => {
+                out.push(json!({"st": map_to_json(&collect_registers(&st)),
+                                "rt": map_to_json(&collect_registers(&rt.state))}));
+            }
+            other => return Err(format!("unknown op {other}")),
+        }
+    }
+    Ok(out)
+}
+
+pub fn handle(verb: &str, req: &Value, sess: &mut State) -> Value {
+    match verb {
+        "names" => json!({"ok": true, "names": NAMES}),
+        "run" => {
+            let seqs = match req.get("seqs").and_then(|v| v.as_array()) {
+                Some(s) => s,
+                None => return err("c08.run needs seqs"),
+            };
+            if sess.rt.is_none() {
+                sess.rt = Some(CoreRuntime::new());
+            }
+            let rt = sess.rt.as_mut().unwrap();
+            let mut results = Vec::with_capacity(seqs.len());
+            for seq in seqs {
+                let ops = match seq.as_array() {
+                    Some(o) => o,
+                    None => return err("sequence is not an array"),
+                };
+                match run_seq(ops, rt) {
+                    Ok(obs) => results.push(json!({"obs": obs})),
+                    Err(e) => results.push(json!({"error": e})),
+                }
+            }
+            json!({"ok": true, "results": results})
+        }
+        _ => err(format!("unknown c08 verb {verb}")),
+    }
 }
